@@ -644,4 +644,46 @@ theorem run_sim (tw : String → Nat) (toks : List Tok) : ∀ (d : Term) (e : Em
     show runOps e (opsOf dec tw k ++ opsOfToks dec tw ks) = .ok e2
     exact runOps_append_ok hr1 hr2
 
+/-! ### the initial state -/
+
+theorem absCol_zero : absCol 0 = .default := by decide
+
+/-- A freshly started emulator (`New()` + `resize(w, h)`) shows the blank display. -/
+theorem dsim_init (hemp : dec "" = []) (w h : Int) (hw1 : 1 ≤ w) (hw2 : w ≤ 65535) (hh1 : 1 ≤ h) (hh2 : h ≤ 65535) :
+    DSim dec (Term.init w.toNat h.toNat) (newState w h) h.toNat w.toNat := by
+  have s2 := sim2_init w h hw1 hw2 hh1 hh2 (new_eq w h (by omega) (by omega))
+  exact
+  { inv := s2.sim.inv, dim := s2.sim.dim, vm := s2.sim.vm
+    osc8 := rfl
+    lc := s2.lc
+    drows := rfl, dcols := rfl
+    row := rfl
+    col := by
+      show ((0 : Nat) : Int) = if (0 : Int) ≥ (w.toNat : Int) then (w.toNat : Int) - 1 else 0
+      split <;> omega
+    pw := by
+      show false = decide ((0 : Int) ≥ (w.toNat : Int))
+      symm; rw [decide_eq_false_iff_not]; omega
+    pen := absStyle_default.symm
+    link := hemp
+    linkParams := hemp
+    vis := rfl
+    shape := rfl
+    grid := by
+      show GridRel dec (List.replicate h.toNat (List.replicate w.toNat DCell.blank)) (blankGrid w.toNat h.toNat)
+      unfold blankGrid
+      refine ⟨by simp, ?_⟩
+      have rep : ∀ {α : Type} (n : Nat) (x y : α) (k : Nat), (List.replicate n x)[k]? = some y → y = x := by
+        intro α n x y k hk
+        rw [List.getElem?_replicate] at hk
+        split at hk
+        · exact (Option.some.inj hk).symm
+        · cases hk
+      intro i a b ha hb
+      rw [rep _ _ _ _ ha, rep _ _ _ _ hb]
+      refine ⟨by simp, ?_⟩
+      intro j x y hx hy
+      rw [rep _ _ _ _ hx, rep _ _ _ _ hy]
+      exact Or.inr ⟨rfl, rfl, rfl, by rw [absCol_zero], rfl, rfl⟩ }
+
 end VaxisModel.Lemmas.C12Sim
